@@ -133,13 +133,13 @@ Section Replica.
   (* proposals put before the replica by a sequence of events: those received, and those its own
      ProposeRule built when it became leader of the view *)
   Definition offered (es : list event) (p : proposal) : Prop :=
-    (exists own, In (EvProposal p own) es) \/
+    (exists own sent, In (EvProposal p own sent) es) \/
     (exists e o, In e es /\ own_of e = Some o /\ p = mk_own self (p_view p) o /\ leader (p_view p) = self).
 
   Lemma offered_cons : forall e es p, offered es p -> offered (e :: es) p.
   Proof.
-    intros e es p [[own H]|[e' [o [H1 H2]]]]; [left|right].
-    - exists own. right. exact H.
+    intros e es p [[own [sent H]]|[e' [o [H1 H2]]]]; [left|right].
+    - exists own, sent. right. exact H.
     - exists e', o. split; [right; exact H1|exact H2].
   Qed.
 
@@ -158,13 +158,13 @@ Section Replica.
     intros. unfold step_spec; cbn. split; [exact I|split; [assumption|intros p []]].
   Qed.
 
-  Lemma vtv_spec : forall st p st' out,
-    verify_then_vote verify st p = (st', out) ->
+  Lemma vtv_spec : forall st p sent st' out,
+    verify_then_vote verify st p sent = (st', out) ->
     chain (last_voted st) out /\ bound (last_voted st) out = last_voted st' /\
     cur_view st' = cur_view st /\
     forall q, In (SignVote q) out -> q = p /\ wf_vote p.
   Proof.
-    unfold verify_then_vote, vote. intros st p st' out H.
+    unfold verify_then_vote, vote. intros st p sent st' out H.
     destruct (verify st p) eqn:E; inversion H; subst; clear H; cbn.
     - destruct (verify_wf _ _ E) as [Hwf Hlt].
       split; [auto|split; [reflexivity|split; [reflexivity|]]].
@@ -172,11 +172,11 @@ Section Replica.
     - split; [exact I|split; [reflexivity|split; [reflexivity|intros q []]]].
   Qed.
 
-  Lemma advance_spec : forall st ok v own st' out,
-    advance_with leader self verify st ok v own = (st', out) ->
+  Lemma advance_spec : forall st ok v own sent st' out,
+    advance_with leader self verify st ok v own sent = (st', out) ->
     step_spec st own None st' out.
   Proof.
-    unfold advance_with, step_spec. intros st ok v own st' out H.
+    unfold advance_with, step_spec. intros st ok v own sent st' out H.
     destruct ok; cbn in H.
     2:{ inversion H; subst; apply nil_spec; reflexivity. }
     destruct (v <? cur_view st).
@@ -201,19 +201,19 @@ Section Replica.
     split; [exact Hwf|right; exact H].
   Qed.
 
-  Lemma proposal_spec : forall st p own st' out,
-    handle_proposal leader self agg verify st p own = (st', out) ->
+  Lemma proposal_spec : forall st p own sent st' out,
+    handle_proposal leader self agg verify st p own sent = (st', out) ->
     step_spec st own (Some p) st' out.
   Proof.
-    unfold handle_proposal. intros st p own st' out H.
+    unfold handle_proposal. intros st p own sent st' out H.
     destruct (qc_sync agg p) as [ok v].
-    destruct (advance_with leader self verify st ok v own) as [st1 out1] eqn:EA.
+    destruct (advance_with leader self verify st ok v own sent) as [st1 out1] eqn:EA.
     apply advance_spec in EA.
     destruct (cur_view st1 + alpha <? p_view p).
     { inversion H; subst. apply step_spec_weaken; exact EA. }
     destruct (cur_view st1 <? p_view p).
     { inversion H; subst. apply step_spec_weaken; exact EA. }
-    destruct (verify_then_vote verify st1 p) as [st2 out2] eqn:EV.
+    destruct (verify_then_vote verify st1 p sent) as [st2 out2] eqn:EV.
     inversion H; subst; clear H.
     apply vtv_spec in EV. destruct EV as [Hc2 [Hb2 [_ Hv2]]].
     destruct EA as [Hc1 [Hb1 Hv1]].
@@ -234,14 +234,14 @@ Section Replica.
     - split; [tauto|split; [lia|]]. intros p [H|[]]; discriminate.
   Qed.
 
-  Lemma timeout_body_spec : forall st ok v own st' out,
-    timeout_body leader self agg verify st ok v own = (st', out) ->
+  Lemma timeout_body_spec : forall st ok v own sent st' out,
+    timeout_body leader self agg verify st ok v own sent = (st', out) ->
     step_spec st own None st' out.
   Proof.
-    unfold timeout_body. intros st ok v own st' out H.
+    unfold timeout_body. intros st ok v own sent st' out H.
     destruct (advance_with leader self verify
                 (stop_voting (mkS (last_voted st) (cur_view st) (Some (cur_view st))) (cur_view st))
-                ok v own) as [st2 out2] eqn:EA.
+                ok v own sent) as [st2 out2] eqn:EA.
     inversion H; subst; clear H.
     apply advance_spec in EA. destruct EA as [Hc [Hb Hv]].
     destruct (timeout_sigs_spec (last_voted st) (cur_view st)) as [Tc [Tb Tv]].
@@ -256,11 +256,11 @@ Section Replica.
     - apply Hv in Hin. exact Hin.
   Qed.
 
-  Lemma timeout_spec : forall st tv ok v own st' out,
-    handle_timeout leader self agg verify st tv ok v own = (st', out) ->
+  Lemma timeout_spec : forall st tv ok v own sent st' out,
+    handle_timeout leader self agg verify st tv ok v own sent = (st', out) ->
     step_spec st own None st' out.
   Proof.
-    unfold handle_timeout. intros st tv ok v own st' out H.
+    unfold handle_timeout. intros st tv ok v own sent st' out H.
     destruct (cur_view st =? tv); cbn in H.
     2:{ inversion H; subst. apply nil_spec; reflexivity. }
     destruct (last_to st) as [lt|].
@@ -271,13 +271,13 @@ Section Replica.
   Qed.
 
   Definition ext_of (e : event) : option proposal :=
-    match e with EvProposal p _ => Some p | _ => None end.
+    match e with EvProposal p _ _ => Some p | _ => None end.
 
   Lemma step_ok : forall st e st' out,
     step st e = (st', out) -> step_spec st (own_of e) (ext_of e) st' out.
   Proof.
-    intros st [p own|tv ok v own|ok v own] st' out H; cbn in *.
-    - apply proposal_spec; exact H.
+    intros st [p own sent|tv ok v own sent|ok v own sent] st' out H; cbn in *.
+    - eapply proposal_spec; exact H.
     - eapply timeout_spec; eauto.
     - eapply advance_spec; eauto.
   Qed.
@@ -302,7 +302,7 @@ Section Replica.
       intros p Hin. apply in_app_or in Hin. destruct Hin as [Hin|Hin].
       + apply Hv1 in Hin. destruct Hin as [Hwf [H|[o [Ho [Hp Hl]]]]]; (split; [exact Hwf|]).
         * left. destruct e; cbn in H; try discriminate. inversion H; subst.
-          exists own. left; reflexivity.
+          exists own, sent. left; reflexivity.
         * right. exists e, o. split; [left; reflexivity|]. split; [exact Ho|]. split; assumption.
       + apply Hv2 in Hin. destruct Hin as [Hwf Hoff]. split; [exact Hwf|].
         apply offered_cons; exact Hoff.
@@ -367,7 +367,7 @@ Lemma unpatched_refuted :
     run_unpatched rr4 1 false init_state es = (st', out) /\ In (SignVote p) out /\
     p_parent p <> p_qc_hash p.
 Proof.
-  exists [EvProposal bad_parent None]. eexists. eexists. exists bad_parent.
+  exists [EvProposal bad_parent None true]. eexists. eexists. exists bad_parent.
   split; [vm_compute; reflexivity|]. split; [left; reflexivity|]. cbn. discriminate.
 Qed.
 
@@ -376,6 +376,34 @@ Lemma unpatched_refuted_view :
     run_unpatched rr4 1 false (mkS 0 7 None) es = (st', out) /\ In (SignVote p) out /\
     p_qc_block_view p = Some bv /\ p_view p <= bv.
 Proof.
-  exists [EvProposal bad_view None]. eexists. eexists. exists bad_view, 6.
+  exists [EvProposal bad_view None true]. eexists. eexists. exists bad_view, 6.
   split; [vm_compute; reflexivity|]. split; [left; reflexivity|]. split; [reflexivity|]. cbn. lia.
+Qed.
+
+(* ------------------------------------------------------------------------------------------ *)
+(* The result of handing a vote to the network never matters: the same signatures are produced *)
+(* and the same state is reached whether or not the send succeeded.  In particular a failed    *)
+(* send does not reopen the view.                                                              *)
+
+Definition set_sent (b : bool) (e : event) : event :=
+  match e with
+  | EvProposal p own _ => EvProposal p own b
+  | EvTimeout tv ok v own _ => EvTimeout tv ok v own b
+  | EvNewView ok v own _ => EvNewView ok v own b
+  end.
+
+Lemma step_sent_irrelevant : forall leader self agg st e b,
+  step leader self agg st (set_sent b e) = step leader self agg st e.
+Proof. intros leader self agg st [p own s|tv ok v own s|ok v own s] b; reflexivity. Qed.
+
+Lemma run_sent_irrelevant : forall leader self agg es st b,
+  run leader self agg st (map (set_sent b) es) = run leader self agg st es.
+Proof.
+  intros leader self agg es. induction es as [|e es IH]; intros st b; [reflexivity|].
+  cbn [map]. unfold run in *. cbn [run_with].
+  change (step_with leader self agg (verify leader) st (set_sent b e))
+    with (step leader self agg st (set_sent b e)).
+  rewrite step_sent_irrelevant. unfold step.
+  destruct (step_with leader self agg (verify leader) st e) as [st1 o1].
+  rewrite IH. reflexivity.
 Qed.
